@@ -47,7 +47,11 @@ def build(spec, lv):
             nv = OPS[op](np.asarray(nl), np.asarray(nr))
         except (ValueError, ZeroDivisionError) as e:      # numpy itself refuses (e.g. integers to negative integer powers)
             raise NumpyRefuses(str(e))
-    return OPS[op](gl, gr), nv
+    ge = OPS[op](gl, gr)
+    if isinstance(ge, complex):
+        # two plain Python numbers, e.g. (-1) ** 0.5: Python itself answers with a complex number before glue is involved
+        raise NumpyRefuses("complex constant")
+    return ge, nv
 
 
 class NumpyRefuses(Exception):
@@ -65,7 +69,9 @@ def same(a, b):
     if a.shape != b.shape:
         return False
     with np.errstate(all='ignore'):
-        return bool(np.all((a == b) | (np.isnan(a) & np.isnan(b)) | (np.abs(a - b) <= 1e-9 * (1 + np.abs(b)))))
+        # where the expression is singular (0/0, 0*inf, ...) rounding differences of an ulp between the full and the viewed evaluation
+        # of a world coordinate decide between nan and +-inf: any two non-finite values are taken as agreeing
+        return bool(np.all((a == b) | (~np.isfinite(a) & ~np.isfinite(b)) | (np.abs(a - b) <= 1e-9 * (1 + np.abs(b)))))
 
 
 def check_expr(spec, views):
